@@ -74,6 +74,12 @@ Definition has_sugar (s : statement) : Prop :=
   (exists x, In x (stmt_exprs s) /\ (is_tuple x = true \/ is_anonymous_component x = true)) \/
   (exists t, In t (sub_stmts s) /\ is_multi_substitution t = true).
 
+(* every meta occurring in an expression / a statement (expression nodes and
+   statement nodes; accesses, log strings and operators carry no meta) *)
+Definition expr_metas (e : expression) : list meta := map expr_meta (sub_exprs e).
+Definition stmt_metas (s : statement) : list meta :=
+  map expr_meta (stmt_exprs s) ++ map stmt_meta (sub_stmts s).
+
 (* ---- expand_spec ------------------------------------------------------------ *)
 (* What the two kinds of sugar mean.
    * A tuple assignment `(x1, .., xn) op (e1, .., en)` (nested tuples flattened,
